@@ -224,7 +224,58 @@ func c18OddIndices(c *mon.Ctx, idx int) {
 	c.Count("odd_index_neutrality")
 }
 
+// c18NilPointerHook: a hook that replaces typed nil pointers (and nil
+// interfaces holding them) by a constant; the operators must see the
+// constant wherever a selector or a value alias resolves to such a pointer.
+type c18T struct{ N int }
+type c18Holder struct {
+	P  *int
+	S  *string
+	T  *c18T
+	L  []*c18T
+	M  map[string]*c18T
+	NL []*c18T          // nil pointers only
+	NM map[string]*c18T // nil pointers only
+	OK *int
+}
+
+func c18NilPointerHook(c *mon.Ctx) {
+	hook := func(v reflect.Value) reflect.Value {
+		x := v
+		for x.IsValid() && x.Kind() == reflect.Interface && !x.IsNil() {
+			x = x.Elem()
+		}
+		if x.IsValid() && x.Kind() == reflect.Ptr && x.IsNil() {
+			return reflect.ValueOf("was-nil")
+		}
+		return v
+	}
+	seven := 7
+	d := c18Holder{L: []*c18T{nil, {N: 1}}, M: map[string]*c18T{"k": nil, "j": {N: 2}}, NL: []*c18T{nil, nil}, NM: map[string]*c18T{"a": nil, "b": nil}, OK: &seven}
+	cases := []struct{ expr, want string }{
+		{`P == "was-nil"`, "T"}, {`P != "was-nil"`, "F"}, {`S == "was-nil"`, "T"}, {`T == "was-nil"`, "T"}, {`P is empty`, "F"}, {`P is not empty`, "T"}, {`P matches "^was"`, "T"}, {`"was" in P`, "T"},
+		{`L.0 == "was-nil"`, "T"}, {`M.k == "was-nil"`, "T"}, {`any L as v { v == "was-nil" }`, "T"}, {`any NM as _, v { v == "was-nil" }`, "T"}, {`all NM as k, v { v == "was-nil" and k != zz }`, "T"}, {`all NL as i, v { v == "was-nil" }`, "T"}, {`any NL as v { v != "was-nil" }`, "F"}, {`OK == 7`, "T"}, {`L.1.N == 1`, "T"},
+	}
+	for _, wrap := range []func() interface{}{func() interface{} { return d }, func() interface{} { return &d }, func() interface{} { return map[string]interface{}{"P": d.P, "S": d.S, "T": d.T, "L": d.L, "M": d.M, "NL": d.NL, "NM": d.NM, "OK": d.OK} }} {
+		for _, cs := range cases {
+			ev, err, pan, _ := createEval(cs.expr, bexpr.WithHookFn(hook))
+			c.Evals(1)
+			if pan != "" || err != nil {
+				continue
+			}
+			if o := evaluate(ev, wrap()); o.Class3() != cs.want {
+				c.Violation(fmt.Sprintf("C18 hook-value-not-seen hook=nil-pointer-to-constant got=%s want=%s", o.Class3(), cs.want), "the operators did not see the replacement a hook returns for a typed nil pointer", map[string]any{"expression": cs.expr, "observed": o.String(), "expected": cs.want, "datum_type": fmt.Sprintf("%T", wrap())})
+				return
+			}
+		}
+	}
+	c.Count("nil_pointer_hook_scenarios")
+}
+
 func c18HookFixed(c *mon.Ctx, idx int) {
+	if (idx/10)%20 == 3 {
+		c18NilPointerHook(c)
+	}
 	cs := c18HookCases[(idx/10)%len(c18HookCases)]
 	o, ok, cerr := c18Eval(cs.expr, c18HookData, []optSpec{{kind: "hook", hook: cs.hook}})
 	c.Evals(1)
@@ -494,7 +545,7 @@ func init() {
 		NumCases:    func(tier string) int { return tierN(tier, 5000, 250000) },
 		Run:         c18Run,
 		Required: func(tier string) []string {
-			return []string{"fixed_hook_cases", "odd_index_neutrality", "rel:permutation", "rel:last-wins", "rel:insufficient-budget-refused", "rel:nil-hook-clears", "rel:caller-slice-not-aliased", "rel:neutral-identity-hook", "rel:neutral-nil-hook", "rel:neutral-tag-bexpr", "rel:neutral-budget-0", "rel:neutral-budget-above-steps", "rel:neutral-budget-equal-steps", "rel:neutral-budget-huge",
+			return []string{"fixed_hook_cases", "nil_pointer_hook_scenarios", "odd_index_neutrality", "rel:permutation", "rel:last-wins", "rel:insufficient-budget-refused", "rel:nil-hook-clears", "rel:caller-slice-not-aliased", "rel:neutral-identity-hook", "rel:neutral-nil-hook", "rel:neutral-tag-bexpr", "rel:neutral-budget-0", "rel:neutral-budget-above-steps", "rel:neutral-budget-equal-steps", "rel:neutral-budget-huge",
 				"rel:neutral-unknown-when-all-resolve", "outcome:T", "outcome:F", "outcome:E", "hook_changed_outcome:props.hookUnwrap", "hook_changed_outcome:props.hookConst", "tag_changed_outcome", "unknown_changed_outcome",
 				"options_in_list:0", "options_in_list:3", "options_in_list:4"}
 		},
